@@ -6,7 +6,7 @@
    [prun (pinit size nh) ops] = the state after the interleaving [ops] of acquire / release / move-construct /
    move-assign operations (any number of handles [nh], operations that block or do not apply are skipped). *)
 From Coq Require Import List Bool Arith Permutation.
-From DV Require Import Model.ResPoolModel Proofs.C25Proofs.
+From DV Require Import Model.ResPoolModel Model.ResPoolMultiModel Proofs.C25Proofs Proofs.C25MultiProofs.
 Import ListNotations.
 
 Definition queue_spec (Q : Type) (q_empty : Q) (q_enq : Q -> nat -> Q) (q_deq : Q -> nat -> option (nat * Q))
@@ -66,6 +66,39 @@ Proof.
   split; [exact lq_spec_empty|]. split; [exact lq_spec_enq|]. split; [exact lq_spec_deq_some|exact lq_spec_deq_none].
 Qed.
 Print Assumptions C25_reference_queue_meets_spec.
+
+(* ---- several pools of one T (Model/ResPoolMultiModel.v): a handle carries (resource_, pool_) and the move operations copy both, so a
+   move assignment can carry a handle slot from one pool to another.  Every step of the multi-pool system is, for each pool, either
+   invisible or ONE step of the single-pool model on that pool's projection (handles of other pools are slots without an object):
+   a cross-pool move assignment is ~Resource in the destination's old pool and a move construction in the source's pool. *)
+Theorem C25_multi_step_refines : forall Q e enq deq (s : mstate Q) o s' p,
+  mwf Q s -> mstep Q enq deq s o = Some s' ->
+  proj Q e p s' = proj Q e p s \/ exists o', pstep Q enq deq (proj Q e p s) o' = Some (proj Q e p s').
+Proof. exact mstep_refines. Qed.
+Print Assumptions C25_multi_step_refines.
+
+(* ... hence, with any number of pools of any sizes and any interleaving of operations on any of them, every pool keeps the bounds and
+   exclusivity of C25_held_le_size / C25_exclusive_holding: what its own handles hold plus its queue is exactly its resources, each once
+   (in particular no resource of pool p is ever recycled into another pool, and pool p is never short of one) *)
+Theorem C25_multi_each_pool_exact : forall Q e enq deq items, queue_spec Q e enq deq items ->
+  forall sizes nh ops p, p < length sizes ->
+  let s := proj Q e p (mrun Q enq deq (minit Q e enq sizes nh) ops) in
+  length (held s) + length (items (p_q s)) = nth p sizes 0 /\
+  NoDup (held s ++ items (p_q s)) /\ (forall x, In x (held s ++ items (p_q s)) <-> x < nth p sizes 0).
+Proof.
+  intros Q e enq deq items HS sizes nh ops p Hp s.
+  destruct (mrun_refines Q e enq deq sizes nh p Hp ops) as [pops E]. subst s. rewrite E.
+  assert (A : p_alive (prun Q enq deq (pinit Q e enq (nth p sizes 0) nh) pops) = true) by (rewrite <- E; reflexivity).
+  pose proof (C25_held_le_size Q e enq deq items HS (nth p sizes 0) nh pops A) as (_ & H1).
+  pose proof (C25_exclusive_holding Q e enq deq items HS (nth p sizes 0) nh pops A) as (H2 & H3 & _).
+  split; [exact H1|]. split; [exact H2|exact H3].
+Qed.
+Print Assumptions C25_multi_each_pool_exact.
+
+Example C25_multi_nonvacuous :
+  let s := mlrun (mlinit [2; 1] 3) [MAcquire 0 0 0; MAcquire 1 1 0; MMoveAssign 0 1] in
+  m_handles s = [MLive 1 (Some 0); MLive 1 None; MDead] /\ m_qs s = [[1; 0]; []].
+Proof. vm_compute. split; reflexivity. Qed.
 
 (* non-trivial run on the reference queue: pool of 2, three handle slots: both resources acquired (a third acquire blocks and is
    skipped), a handle moved onto a live handle (its resource goes back to the queue), everything released, pool destroyed *)
